@@ -1,9 +1,68 @@
 From BB Require Import Base TM Ref InstrsModel TapeModel SegmentModel.
+From BB Require Import MacroSpec MacroSim SegmentFacts SegmentTape SegmentSound.
 From BB.Properties Require Import C05.
 
+Check C05_seg_verdicts_true : forall prog S C segs,
+  0 < S -> 0 < C ->
+  (forall s c pr sh tr, cp_get prog (s, c) = Some (pr, sh, tr) -> s < S /\ c < C /\ tr < S /\ pr < C) ->
+  let P := to_prog prog in
+  (forall st, sg_seg_cant_halt prog (S, C) segs = Ok (SgrRefuted st) -> forall n sl, ~ halts_at P init_config n sl) /\
+  (forall st, sg_seg_cant_spin_out prog (S, C) segs = Ok (SgrRefuted st) -> forall n, ~ spins_out_at P init_config n) /\
+  (forall st, sg_seg_cant_blank prog (S, C) segs = Ok (SgrRefuted st) -> forall n, ~ erases_at P init_config n) /\
+  (forall g, sg_segment_cant_reach prog (S, C) segs g = Ok SgrHalt -> exists n sl, halts_at P init_config n sl) /\
+  (forall g, sg_segment_cant_reach prog (S, C) segs g = Ok SgrSpinout -> exists n, spins_out_at P init_config n) /\
+  (forall g, sg_segment_cant_reach prog (S, C) segs g = Ok SgrBlank -> exists n q, blank_after P init_config n q) /\
+  (forall g, sg_segment_cant_reach prog (S, C) segs g = Ok SgrRepeat -> never_halts P init_config).
+Check C05_seg_verdicts_true_stmt_degenerate : ~ C05_seg_verdicts_true_stmt.
+Check C05_seg_positive_sound : forall prog S C segs g,
+  prog_within prog S C ->
+  let P := to_prog prog in
+  (sg_segment_cant_reach prog (S, C) segs g = Ok SgrHalt -> exists n sl, halts_at P init_config n sl) /\
+  (sg_segment_cant_reach prog (S, C) segs g = Ok SgrSpinout -> exists n, spins_out_at P init_config n) /\
+  (sg_segment_cant_reach prog (S, C) segs g = Ok SgrBlank -> exists n q, blank_after P init_config n q) /\
+  (sg_segment_cant_reach prog (S, C) segs g = Ok SgrRepeat -> never_halts P init_config).
+Check C05_seg_positive_sound_any_params : forall prog params segs g,
+  let P := to_prog prog in
+  (sg_segment_cant_reach prog params segs g = Ok SgrHalt -> exists n sl, halts_at P init_config n sl) /\
+  (sg_segment_cant_reach prog params segs g = Ok SgrSpinout -> exists n, spins_out_at P init_config n) /\
+  (sg_segment_cant_reach prog params segs g = Ok SgrBlank -> exists n q, blank_after P init_config n q) /\
+  (sg_segment_cant_reach prog params segs g = Ok SgrRepeat -> never_halts P init_config).
+Check C05_seg_refuted_sound : forall prog S C segs,
+  prog_within prog S C -> 0 < S -> 0 < C ->
+  let P := to_prog prog in
+  (forall st, sg_seg_cant_halt prog (S, C) segs = Ok (SgrRefuted st) -> forall n sl, ~ halts_at P init_config n sl) /\
+  (forall st, sg_seg_cant_spin_out prog (S, C) segs = Ok (SgrRefuted st) -> forall n, ~ spins_out_at P init_config n).
+Check C05_seg_blank_never_refuted : forall prog params segs st,
+  sg_seg_cant_blank prog params segs <> Ok (SgrRefuted st).
+Check C05_seg_tape_step_sim : forall (P : prog) q c pr sh q' t t' T h,
+  P (q, c) = Some (pr, sh, q') ->
+  sgt_scan t = Some c -> tape_ok t -> rep t T h ->
+  sg_tape_step t sh pr (q' =? q) = Ok t' ->
+  exists k T' h',
+    (1 <= k)%nat /\
+    TMabs.a_steps P k (TMabs.mkA q h T) = Some (TMabs.mkA q' h' T') /\
+    tape_ok t' /\ rep t' T' h' /\
+    (forall i ci, (i < k)%nat -> TMabs.a_steps P i (TMabs.mkA q h T) = Some ci ->
+       (wl t h <= TMabs.a_h ci <= wr t h)%Z /\ TMabs.a_q ci = q /\
+       TMabs.a_t ci (TMabs.a_h ci) = c) /\
+    (forall y, ~ (wl t h <= y <= wr t h)%Z -> T' y = T y) /\
+    match sgt_scan t' with
+    | Some _ => wl t' h' = wl t h /\ wr t' h' = wr t h
+    | None =>
+        if sh then h' = (wr t h + 1)%Z /\ sgt_rspan t' = [] /\ wl t' h' = wl t h
+        else h' = (wl t h - 1)%Z /\ sgt_lspan t' = [] /\ wr t' h' = wr t h
+    end.
+Check C05_seg_run_to_edge_sound : forall prog goal c cs,
+  cfg_ok c -> rte_post prog (sgs_todo cs) (sg_run_to_edge prog goal c cs).
+Check C05_seg_init_exact : forall prog (ap : sg_aprog) goal, sga_prog ap = prog ->
+  forall n cs0 cs, asr_inv cs0 ->
+  iter_nat n (sg_asr_body ap goal) cs0 = inl cs ->
+  forall c cs', sg_configs_next cs = Ok (Some c, cs') ->
+  tape_ok (sgc_tape c) /\ (sgc_init c = true -> real_at prog 0 (sg_x c)).
 Check C05_wrapper_refuted_F2 :
   exists prog segs st n sl,
     sg_py_segment_cant_halt prog segs = Ok (SgrRefuted st) /\ halts_at (to_prog prog) init_config n sl.
+Check C05_wrapper_counterfactual : sg_seg_cant_halt f2_seg_prog (2, 2) 3 = Ok SgrHalt.
 Check C05_seg_mono : forall prog params goal s s',
   2 <= s -> s <= s' ->
   sg_segment_cant_reach prog params s goal <> Ok SgrSegmentLimit ->
